@@ -16,6 +16,14 @@ for f in sorted(kf, key=lambda x: x["property"]):
     out.append("| %s | %s | %s | `%s` / `%s` | %s |" % (f["property"], f["status"], f.get("commit", "-"), f.get("clause", ""), f.get("key", ""), f["what"].replace("|", "\\|")))
 out.append("")
 out.append("#### Table 9-B. Seeded changes (`/verif/seeded/<id>/`) and the checks that catch them (see §9.4)\n")
+metas = [json.load(open(os.path.join(d, "meta.json"))) for d in sorted(glob.glob(os.path.join(H, "seeded", "*"))) if os.path.exists(os.path.join(d, "meta.json"))]
+n = len(metas)
+late = sum(1 for m in metas if "initially" in str(m.get("detected_by", "")).lower() or "first version" in str(m.get("detected_by", "")).lower())
+pend = sum(1 for m in metas if "pending" in str(m.get("detected_by", "")).lower())
+other = sum(1 for m in metas if "misses it" in str(m.get("detected_by", "")).lower() and "initially" not in str(m.get("detected_by", "")).lower())
+out.append("%d seeded changes confirmed; %d were caught by the quick tier of their own check as it stood, %d only by the check of a neighbouring property "
+           "(named in the row), %d were missed at first and are caught after the strengthening described in the row, %d still pending.\n"
+           % (n, n - late - pend - other, other, late - pend if late >= pend else late, pend))
 out.append("| id | property | what it needs to manifest | detected by |")
 out.append("|---|---|---|---|")
 for d in sorted(glob.glob(os.path.join(H, "seeded", "*"))):
